@@ -490,7 +490,8 @@ func propFRI(t *rapid.T, c *curve) {
 
 	// (2) tampering with the opening
 	sIdx := uint64(sortedIndex(int(opPos), f.N))
-	so := &scheme{name: "fri_opening", test: test, env: env,
+	so := &scheme{name: "fri_opening", test: test, env: env, tag: c.name,
+		tagLabels: map[string]bool{"fri_opening|ClaimedValue:felt|plus1": true},
 		verify: func(x reflect.Value) error { return f.verifyOpening(opPos, x, pp.Elem()) },
 		expect: func(s site, kind string, orig, mut reflect.Value) (expectation, string) {
 			switch {
@@ -579,7 +580,7 @@ func propFRI(t *rapid.T, c *curve) {
 		if o.panicked != nil {
 			t.Fatalf("%s: verifier panicked: %v", test, o.panicked)
 		}
-		rep.Case(test, fmt.Sprintf("%s dev step=%d delta=%s", stmt, step, delta.Text(16)), true, "fri_proximity", cls, "forged", "rejected")
+		rep.Case(test, fmt.Sprintf("%s dev step=%d delta=%s", stmt, step, delta.Text(16)), true, "fri_proximity", cls, cls+"@"+c.name, "forged", "rejected")
 	}
 
 	// (3) far-from-low-degree function: p + c*X^n is at distance >= 7/8 from every polynomial of degree < n.
@@ -623,7 +624,7 @@ func (f *friInst) farFunction(t *rapid.T, test, stmt string, p, evals []*big.Int
 		rep.Case(test, key, true, "fri_proximity", "far_function|accepted_by_the_single_query(by_design)")
 		return
 	}
-	rep.Case(test, key, true, "fri_proximity", "far_function|honest_run_rejected", "forged", "rejected")
+	rep.Case(test, key, true, "fri_proximity", "far_function|honest_run_rejected", "far_function@"+c.name, "forged", "rejected")
 
 	if tr.si[last]%2 != 0 {
 		rep.Case(test, key+" F17", false, "fri_proximity", "F17_forgery|not_applicable(odd_last_query)")
@@ -660,7 +661,7 @@ func (f *friInst) farFunction(t *rapid.T, test, stmt string, p, evals []*big.Int
 	if o.panicked != nil {
 		t.Fatalf("%s: verifier panicked: %v", test, o.panicked)
 	}
-	rep.Case(test, key+" F17", true, "fri_proximity", "F17_forgery|neighbour_leaf_under_its_own_root", "forged", "rejected")
+	rep.Case(test, key+" F17", true, "fri_proximity", "F17_forgery|neighbour_leaf_under_its_own_root", "F17_forgery@"+c.name, "forged", "rejected")
 }
 
 func TestC17b_FRI(t *testing.T) {
